@@ -2,8 +2,8 @@
    conclusions are not vacuous, and the documented exclusions are visible. *)
 From Coercion.Secure Require Import GoVal SecureModel SecureSpec Registry Surfaces.
 
-Definition fld (n : N) (t : tag) (v : gv) : fmeta * gv := ({| f_name := n; f_exported := true; f_tag := t |}, v).
-Definition ufld (n : N) (v : gv) : fmeta * gv := ({| f_name := n; f_exported := false; f_tag := TNone |}, v).
+Definition fld (n : N) (t : tag) (v : gv) : fmeta * gv := ({| f_name := n; f_exported := true; f_embedded := false; f_tag := t |}, v).
+Definition ufld (n : N) (v : gv) : fmeta * gv := ({| f_name := n; f_exported := false; f_embedded := false; f_tag := TNone |}, v).
 
 Definition creds (u p : N) : gv := VStruct [fld 1001 TNone (VStr u); fld 1002 TSecure (VStr p)].
 
@@ -48,11 +48,37 @@ Qed.
 Example ex_err : secure (VPtr (Some (VSlice (Some [creds 1 2])))) = OErr. Proof. reflexivity. Qed.
 Example ex_nil : secure (VPtr None) = OOk (VPtr None). Proof. reflexivity. Qed.
 
-(* a struct with an unexported field as element of a slice: the copy loses the unexported field (documented) *)
-Example ex_copy_loses_unexported :
+(* a struct with an unexported field as element of a slice: the copy keeps it (since commit d415afb) *)
+Example ex_copy_keeps_unexported :
   secure (VPtr (Some (VStruct [fld 1 TNone (VSlice (Some [VStruct [fld 2 TNone (VStr 5); ufld 3 (VStr 6)]]))])))
-  = OOk (VPtr (Some (VStruct [fld 1 TNone (VSlice (Some [VStruct [fld 2 TNone (VStr 5); ufld 3 (VStr 0)]]))]))).
+  = OOk (VPtr (Some (VStruct [fld 1 TNone (VSlice (Some [VStruct [fld 2 TNone (VStr 5); ufld 3 (VStr 6)]]))]))).
 Proof. vm_compute. reflexivity. Qed.
+
+(* embedded struct / *struct of an unexported type: `type base struct{ Password string `coerce:"secure"`; Region string }`,
+   `type Req struct{ base; *more; Name string }`: the promoted secure field is hidden, the promoted plain field kept,
+   by pointer, by value in an `any`, in a slice and as a map value alike *)
+Definition emb (n : N) (v : gv) : fmeta * gv := ({| f_name := n; f_exported := false; f_embedded := true; f_tag := TNone |}, v).
+Definition base_v (p r : N) : gv := VStruct [fld 1002 TSecure (VStr p); fld 1011 TNone (VStr r)].
+Definition req_emb (p r p2 r2 : N) : gv :=
+  VStruct [emb 1012 (base_v p r); emb 1013 (VPtr (Some (base_v p2 r2))); fld 1003 TNone (VStr 10)].
+Example ex_embedded :
+  secure (VPtr (Some (VStruct
+            [fld 1 TNone (VPtr (Some (req_emb 40 41 42 43)));
+             fld 2 TNone (VIface (Some (req_emb 44 45 46 47)));
+             fld 3 TNone (VSlice (Some [req_emb 48 49 50 51]));
+             fld 4 TNone (VMap (Some [(20%N, req_emb 52 53 54 55)]))])))
+  = OOk (VPtr (Some (VStruct
+            [fld 1 TNone (VPtr (Some (req_emb 1 41 1 43)));
+             fld 2 TNone (VIface (Some (req_emb 1 45 1 47)));
+             fld 3 TNone (VSlice (Some [req_emb 1 49 1 51]));
+             fld 4 TNone (VMap (Some [(20%N, req_emb 1 53 1 55)]))]))).
+Proof. vm_compute. reflexivity. Qed.
+Example ex_embedded_exposed : sec_at (req_emb 40 41 42 43) (VStr 42).
+Proof.
+  unfold req_emb. eapply SA_embed_ptr with (m := fst (emb 1013 (VStr 0))) (x := base_v 42 43); try reflexivity.
+  - simpl. right. left. reflexivity.
+  - eapply SA_here with (m := fst (fld 1002 TSecure (VStr 0))); try reflexivity. simpl. left. reflexivity.
+Qed.
 
 (* ---- registry ---- *)
 Definition tf (n : N) (secretish : bool) (t : tag) (ty0 : ty) : tmeta * ty :=
@@ -91,7 +117,7 @@ Definition ex_plan : plan_sk :=
 
 Example ex_plan_wf : plan_wf ex_plan = true. Proof. vm_compute. reflexivity. Qed.
 
-Definition scrub1 := scrub false.
+Definition scrub1 := scrub.
 Example ex_clone_default :
   match entry_plan (fun v => v) false false ex_plan with
   | OOk v' => collect nReq v' = [scrub1 req1; scrub1 req2; scrub1 req1; scrub1 req2] /\ collect nResp v' = []
